@@ -36,8 +36,8 @@ Init == /\ coord = [set |-> [c \in Classes |-> 0], cosmetic |-> 0]
         /\ runs = [i \in Shards |-> coord] /\ file = [i \in Shards |-> coord]
         /\ verdict = [i \in Shards |-> "none"]
 
-CoordReload(c) == /\ coord.set[c] < MaxVersion
-                  /\ coord' = [coord EXCEPT !.set[c] = @ + 1]
+\* (any other version: an edit, or an edit taken back)
+CoordReload(c) == /\ \E v \in 0..MaxVersion : v # coord.set[c] /\ coord' = [coord EXCEPT !.set[c] = v]
                   /\ verdict' = [i \in Shards |-> "none"]
                   /\ UNCHANGED <<shardCfg, file, runs>>
 CoordCosmetic == /\ coord.cosmetic < MaxVersion
@@ -60,7 +60,9 @@ RefusedKeepsOld == TRUE
 PushRefused(i) ==
   /\ Hash(shardCfg[i]) # Hash(coord)
   /\ shardCfg' = IF RefusedKeepsOld THEN shardCfg ELSE [shardCfg EXCEPT ![i] = coord]
-  /\ file' = [file EXCEPT ![i] = coord]          \* (the failing callback is the last one, the reload: the file has been written)
+  \* (the failing callback is the last one, the reload: the file has been written from the new configuration; the repaired
+  \* tree runs the callbacks again with the previous configuration, which writes the file from it again)
+  /\ file' = IF RefusedKeepsOld THEN file ELSE [file EXCEPT ![i] = coord]
   /\ verdict' = [verdict EXCEPT ![i] = "outofsync"]
   /\ UNCHANGED <<coord, runs>>
 \* any later reload that succeeds (a targets update) makes Prometheus run what the generated file says
